@@ -594,6 +594,60 @@ func ruleOptScope(c *Ctx) {
 			}
 		})
 	}
+	// every out-of-range rejection of a container's remove method is forgiven under the option:
+	// an error return whose immediate controlling branch compares against a length is a
+	// "target does not exist" verdict and must sit on the option's false edge instead
+	for impl := range allowed {
+		if impl == ai.handlers["remove"] {
+			continue
+		}
+		ei := errResultIndex(impl)
+		if ei < 0 {
+			continue
+		}
+		n := 0
+		bad := ""
+		for _, r := range liveReturns(impl) {
+			if !b.definitelyNonNilErr(retVal(r, ei), r.Block(), 0) {
+				continue
+			}
+			for _, e := range b.controlDeps(r.Block()) {
+				iff, ok := e.From.Instrs[len(e.From.Instrs)-1].(*ssa.If)
+				if !ok {
+					continue
+				}
+				involvesLen := false
+				var walk func(v ssa.Value, d int)
+				walk = func(v ssa.Value, d int) {
+					if d > 4 || v == nil {
+						return
+					}
+					if _, ok := lenArg(v); ok {
+						involvesLen = true
+						return
+					}
+					switch x := v.(type) {
+					case *ssa.BinOp:
+						walk(x.X, d+1)
+						walk(x.Y, d+1)
+					case *ssa.UnOp:
+						walk(x.X, d+1)
+					}
+				}
+				walk(iff.Cond, 0)
+				if involvesLen {
+					n++
+					bad = fmt.Sprintf("the error return at %s is decided directly by a length comparison (%s) and not by the option: with AllowMissingPathOnRemove set, a remove of an index that does not exist still aborts the patch", b.posOf(r), b.posOf(iff))
+				}
+			}
+		}
+		key := fmt.Sprintf("%s: every out-of-range rejection is under the option's control", fname(impl))
+		if bad != "" {
+			l.add("R-OPTSCOPE", "v5", key, b.rel(impl.Pos()), Violated, bad, true)
+		} else {
+			l.add("R-OPTSCOPE", "v5", key, b.rel(impl.Pos()), Discharged, "no error return is the immediate outcome of a length comparison: each range test leads to the option test first", true)
+		}
+	}
 	// the branch in the handler is on the unreachable-parent edge only, and the
 	// container methods' branches are on absent-target edges only
 	{
